@@ -741,6 +741,12 @@ func (c *Client) receipts(ctx context.Context, url string, bm blockmap, start, l
 			return fmt.Errorf("eth_getBlockReceipts: %w", err)
 		}
 		for j := range resps[i].Result {
+			if uint64(resps[i].Result[j].BlockNum) != blockNum {
+				return fmt.Errorf("eth_getBlockReceipts: receipt of block %d among receipts of block %d", resps[i].Result[j].BlockNum, blockNum)
+			}
+			if err := setHash(b, resps[i].Result[j].BlockHash); err != nil {
+				return fmt.Errorf("eth_getBlockReceipts: %w", err)
+			}
 			tx := b.Tx(uint64(resps[i].Result[j].TxIdx))
 			tx.PrecompHash.Write(resps[i].Result[j].TxHash)
 			tx.Type.Write(byte(resps[i].Result[j].TxType))
@@ -864,6 +870,10 @@ func (c *Client) logs(ctx context.Context, url string, filter *glf.Filter, bm bl
 		tx := b.Tx(k.b)
 		tx.PrecompHash.Write(logs[0].TxHash)
 		for i := range logs {
+			if err := setHash(b, logs[i].BlockHash); err != nil {
+				b.Unlock()
+				return fmt.Errorf("eth_getLogs: %w", err)
+			}
 			tx.Logs.Add(logs[i].Log)
 		}
 		b.Unlock()
@@ -938,6 +948,12 @@ func (c *Client) traces(ctx context.Context, url string, bm blockmap, start, lim
 
 		var tracesByTx = map[key][]traceBlockResult{}
 		for i := range res.Result {
+			if res.Result[i].BlockNum != block.Num() {
+				return fmt.Errorf("trace_block: trace of block %d among traces of block %d", res.Result[i].BlockNum, block.Num())
+			}
+			if err := setHash(block, res.Result[i].BlockHash); err != nil {
+				return fmt.Errorf("trace_block: %w", err)
+			}
 			k := key{block.Num(), uint64(res.Result[i].TxIdx)}
 			if traces, ok := tracesByTx[k]; ok {
 				tracesByTx[k] = append(traces, res.Result[i])
